@@ -97,12 +97,13 @@ def capture(seed=0, n=40, **kw):
 
 def main(tier, seed, only=None):
     t0 = time.time()
-    items = [('props.kernel_common:heap_item', dict(qual='Waveform.clock', timeout_s=30 if tier == 'quick' else 120))]
+    items = [('props.kernel_common:heap_item', dict(qual=q_, timeout_s=30 if tier == 'quick' else 120)) for q_ in ('Waveform.clock', 'Waveform.__init__', 'Waveform.clear')]
     items += [('props.C15:capture', dict(seed=seed * 10 + k, n=15 if tier == 'quick' else 150)) for k in range(8)]
     items = common.filter_only(items, only)
     res = run.run_items(items)
-    return run.finish(PROP, tier, res, t0, level='proof', seed=seed, functions=['py4hw/logic/simulation.py::Waveform.clock'],
-                      assumptions=['requires of Waveform.clock (established by __init__, checked only by the bounded stand-in): the unique watch list holds distinct wires, each with its own, distinct sample list; no FieldInspector / ValueFormatter entries',
+    return run.finish(PROP, tier, res, t0, level='proof', seed=seed, functions=['py4hw/logic/simulation.py::Waveform.clock', 'py4hw/logic/simulation.py::Waveform.__init__', 'py4hw/logic/simulation.py::Waveform.clear'],
+                      assumptions=['Waveform.__init__ is proved to establish the requires of Waveform.clock for a watch list of wires and connected ports: one entry per distinct wire (given directly, through a port, or several times), each with its own new empty sample list, every watched wire covered; the clock contract states distinctness through a ghost index (Skolem form of the same fact); watch lists containing FieldInspector / ValueFormatter entries are outside both contracts (bounded only)',
+                                   'Waveform.__init__: the argument is a list object (not a single wire), its entries exist before the call; Logic.__init__ / addIn / getWidth / getFormat through frame contracts (addIn creates a new port and leaves the wire field of existing objects alone)',
                                    'callee contracts: Waveform.getwire(x) returns the wire of x, w.get() returns w.value',
                                    'that clock() runs exactly once per enabled edge and before pending updates are applied is C05',
                                    common.dropped_note()],
